@@ -1,13 +1,16 @@
 (* Proofs/AddressConvP.v — scriptPubKey <-> address, stated once for the five standard templates
-   and for the outermost functions (C09):
+   and for the outermost functions (C09), for the code after the fixes cfb8181, 00bc7dc, adc6e07,
+   87f2a60:
    1. script -> address -> script and injectivity, uniformly over P2PKH/P2SH/P2WPKH/P2WSH/P2TR;
-   2. what TxOut.to_address can return (only the five templates, with the right lengths) and
-      the converse address -> script -> address for canonical texts;
+   2. address_to_script_pubkey and TxOut.to_address accept EXACTLY the addresses of the five
+      templates (a text is accepted with result cs iff it is the address of cs on some network):
+      the address <-> scriptPubKey map is a bijection in both directions, and the two parsers
+      agree;
    3. the other entry points: RedeemScript.address, WitnessScript.address / p2sh_address,
       SegwitPubKey.p2sh_address, ScriptPubKey.parse(bytes).address and
       address_to_script_pubkey(a).serialize() (byte-level round trip);
-   4. witnesses that the parsers accept more than the encoders' images: non-zero / over-long
-      padding, non-standard program lengths, foreign Base58 version bytes. *)
+   4. the former counterexamples (non-zero / over-long padding, "bcrtx", 21-byte v0 program,
+      foreign Base58 version byte) are rejected. *)
 From V Require Import Base.Prelude Base.Ints Base.Lfsr Model.Helper Model.Script Model.Base58
   Model.Bech32 Model.Address Model.AddressExt
   Proofs.HelperP Proofs.ScriptP
@@ -53,23 +56,16 @@ Definition wD : list Z :=
    114;103;119;112;117;103;112;122;121;115;110;122;115;102;54;101;100;103;117].
 Definition wD_prog : bytes := wB_prog ++ [20].
 
-(* non-zero padding is accepted: the canonical address and a second text decode alike *)
-Theorem decode_nonzero_padding_refuted :
-  wA1 <> wA2 /\ decode_bech32 wA1 = Ok (1, 0, wA_prog) /\ decode_bech32 wA2 = Ok (1, 0, wA_prog) /\
-  encode_bech32_checksum (witness_program 0 wA_prog) 1 = Ok wA1.
-Proof. repeat split; try (vm_compute; reflexivity). discriminate. Qed.
-
-(* five padding bits are accepted *)
-Theorem decode_long_padding_refuted :
-  wB1 <> wB2 /\ decode_bech32 wB1 = Ok (0, 0, wB_prog) /\ decode_bech32 wB2 = Ok (0, 0, wB_prog) /\
-  encode_bech32_checksum (witness_program 0 wB_prog) 0 = Ok wB1.
-Proof. repeat split; try (vm_compute; reflexivity). discriminate. Qed.
-
-(* the character after "bcrt" is never looked at *)
-Theorem decode_regtest_separator_refuted :
-  wC1 <> wC2 /\ decode_bech32 wC1 = Ok (3, 0, wB_prog) /\ decode_bech32 wC2 = Ok (3, 0, wB_prog) /\
-  encode_bech32_checksum (witness_program 0 wB_prog) 3 = Ok wC1.
-Proof. repeat split; try (vm_compute; reflexivity). discriminate. Qed.
+(* the former counterexamples: the canonical texts decode and re-encode, the others are
+   rejected by decode_bech32 (wA2, wB2: fix cfb8181; wC2: fix 00bc7dc).  wD shows the leniency
+   that remains in decode_bech32 itself: a version-0 program of 21 bytes is returned (only the
+   address parsers reject it, see [former_witnesses_rejected]) *)
+Theorem decode_former_witnesses :
+  decode_bech32 wA1 = Ok (1, 0, wA_prog) /\ decode_bech32 wA2 = Err /\
+  decode_bech32 wB1 = Ok (0, 0, wB_prog) /\ decode_bech32 wB2 = Err /\
+  decode_bech32 wC1 = Ok (3, 0, wB_prog) /\ decode_bech32 wC2 = Err /\
+  decode_bech32 wD = Ok (0, 0, wD_prog) /\ length wD_prog = 21%nat.
+Proof. repeat split; vm_compute; reflexivity. Qed.
 
 (* ---------- the five templates ---------- *)
 
@@ -132,105 +128,39 @@ Proof.
   rewrite R1 in R2. injection R2 as R2. exact (std_script_inj t1 h1 t2 h2 T1 T2 R2).
 Qed.
 
-(* ---------- what TxOut.to_address returns, and the way back ---------- *)
+(* ---------- the parsers accept exactly the addresses ---------- *)
 
-Lemma skipn1_len (r : bytes) n : length (skipn 1 r) = S n -> exists v, r = v :: skipn 1 r.
-Proof. destruct r as [|v r]; cbn; [discriminate|]. eauto. Qed.
+(* "a is the address of the standard scriptPubKey cs on some network" *)
+Definition addr_of (a : list Z) (cs : list cmd) : Prop :=
+  exists t h net, std_template t h /\ 0 <= net <= 3 /\ cs = std_script t h /\
+                  std_address t h net = Ok a.
 
-Lemma decode_base58_inv a h : decode_base58 hash256 a = Ok h -> length h = 20%nat ->
-  bytes_ok h /\ exists ver, raw_decode_base58 hash256 a = Ok (ver :: h) /\
-                            encode_base58_checksum hash256 (ver :: h) = Ok a.
+Lemma b58_raw_ok raw v1 v2 : b58_raw_bad raw v1 v2 = false ->
+  exists ver, raw = ver :: skipn 1 raw /\ length (skipn 1 raw) = 20%nat /\ (ver = v1 \/ ver = v2).
 Proof.
-  unfold decode_base58. intros H L.
-  destruct (raw_decode_base58 hash256 a) as [r|] eqn:ER; [|discriminate]. cbn [bind] in H.
-  assert (EH : h = skipn 1 r) by (injection H as <-; reflexivity). clear H. subst h.
-  destruct (skipn1_len r 19 L) as [ver E].
-  destruct (raw_decode_base58_encode hash256 a r ER hash_len) as [HB EN].
-  split; [exact (bytes_ok_skipn 1 r HB)|]. exists ver. rewrite <- E. auto.
+  unfold b58_raw_bad. intros H. apply orb_false_iff in H as [H1 H2].
+  apply negb_false_iff, Nat.eqb_eq in H1. apply negb_false_iff, orb_true_iff in H2.
+  destruct raw as [|ver r]; [discriminate|]. exists ver. cbn [skipn nth] in *.
+  split; [reflexivity|]. split; [cbn in H1; lia|]. destruct H2 as [E|E]; apply Z.eqb_eq in E; auto.
 Qed.
 
-(* TxOut.to_address returns one of the five templates, with a hash of the right length, and
-   the text determines it through the two decoders; a canonical segwit text, or a Base58Check
-   text whose version byte is the one of (template, network), is exactly the address of the
-   returned scriptPubKey *)
-Definition to_address_concl (a : list Z) (cs : list cmd) : Prop :=
-  exists t h, std_template t h /\ cs = std_script t h /\
-    ((2 <= t /\ exists net, (net = 0 \/ net = 1 \/ net = 3) /\
-                 decode_bech32 a = Ok (net, seg_version t, h) /\
-                 (canonical_text a -> std_address t h net = Ok a)) \/
-     (t < 2 /\ exists ver, raw_decode_base58 hash256 a = Ok (ver :: h) /\
-                 forall net, ver = b58_version t net -> std_address t h net = Ok a)).
-
-Theorem to_address_converse a cs :
-  to_address_spk hash256 a = Ok cs -> to_address_concl a cs.
+(* Base58 branches (fix 87f2a60): 21 bytes, version byte of the template *)
+Lemma b58_branch a raw t : (t = 0 \/ t = 1) ->
+  raw_decode_base58 hash256 a = Ok raw ->
+  b58_raw_bad raw (b58_version t 0) (b58_version t 1) = false ->
+  addr_of a (b58_script t (skipn 1 raw)).
 Proof.
-  unfold to_address_spk. intros H.
-  destruct (starts_with [98; 99; 49] a || starts_with [116; 98; 49] a ||
-            starts_with [98; 99; 114; 116; 49] a) eqn:SW.
-  - destruct (decode_bech32 a) as [[[net v] h]|] eqn:ED; [|discriminate].
-    cbn [bind] in H. cbv beta iota in H.
-    destruct (decode_bech32_wf a net v h ED) as [HN [_ [HB _]]].
-    assert (SEG : forall t, seg_template t h -> v = seg_version t -> cs = seg_script t h ->
-              to_address_concl a cs).
-    { intros t ST -> ->. exists t, h.
-      assert (T2 : 2 <= t) by (destruct ST as [_ [[-> _] | [[-> | ->] _]]]; lia).
-      split.
-      { destruct ST as [B [[-> L] | [[-> | ->] L]]]; split; auto 6. }
-      split; [unfold std_script; destruct (t <? 2) eqn:E; [lia|reflexivity]|].
-      left. split; [exact T2|]. exists net. split; [exact HN|]. split; [exact ED|].
-      intros CT. unfold std_address. destruct (t <? 2) eqn:E; [lia|].
-      unfold segwit_address. rewrite (seg_raw_serialize t h ST). cbn [bind].
-      exact (segwit_decode_encode_canonical a net (seg_version t) h ED CT). }
-    destruct (v =? 0) eqn:V0.
-    + apply Z.eqb_eq in V0. subst v.
-      destruct (length h =? 20)%nat eqn:L20.
-      * apply Nat.eqb_eq in L20. injection H as <-.
-        apply (SEG 2); [split; auto|reflexivity|reflexivity].
-      * destruct (length h =? 32)%nat eqn:L32; [|discriminate].
-        apply Nat.eqb_eq in L32. injection H as <-.
-        apply (SEG 3); [split; auto|reflexivity|reflexivity].
-    + destruct (v =? 1) eqn:V1; [|discriminate]. apply Z.eqb_eq in V1. subst v.
-      destruct (length h =? 32)%nat eqn:L32; [|discriminate].
-      apply Nat.eqb_eq in L32. injection H as <-.
-      apply (SEG 4); [split; auto|reflexivity|reflexivity].
-  - destruct a as [|c a']; [discriminate|].
-    assert (B58 : forall t, (t = 0 \/ t = 1) ->
-              (h <- decode_base58 hash256 (c :: a') ;;
-               if (length h =? 20)%nat then Ok (b58_script t h) else Err) = Ok cs ->
-              to_address_concl (c :: a') cs).
-    { intros t Ht HH.
-      destruct (decode_base58 hash256 (c :: a')) as [h|] eqn:ED; [|discriminate]. cbn [bind] in HH.
-      destruct (length h =? 20)%nat eqn:L20; [|discriminate]. apply Nat.eqb_eq in L20.
-      injection HH as <-.
-      destruct (decode_base58_inv _ h ED L20) as [HB [ver [ER EN]]].
-      exists t, h. split; [split; [exact HB|left; split; [tauto|exact L20]]|].
-      assert (T2 : t < 2) by lia.
-      split; [unfold std_script; destruct (t <? 2) eqn:E; [reflexivity|lia]|].
-      right. split; [exact T2|]. exists ver. split; [exact ER|].
-      intros net ->. unfold std_address. destruct (t <? 2) eqn:E; [|lia].
-      unfold b58_address, p2pkh_address, p2sh_address, b58_version in *.
-      destruct Ht as [-> | ->]; exact EN. }
-    destruct ((c =? 51) || (c =? 50)) eqn:C1.
-    + apply (B58 1); [auto|exact H].
-    + destruct ((c =? 49) || (c =? 109) || (c =? 110)) eqn:C2; [|discriminate].
-      apply (B58 0); [auto|exact H].
-Qed.
-
-(* ---------- the same for address_to_script_pubkey ---------- *)
-
-(* the character tested by the parsers ('q' / 'p' after the separator) is the version symbol *)
-Lemma version_char a net v h c : decode_bech32 a = Ok (net, v, h) ->
-  beq (firstn 4 a) [98; 99; 49; c] || beq (firstn 4 a) [116; 98; 49; c] ||
-  beq (firstn 6 a) [98; 99; 114; 116; 49; c] = true ->
-  b32c v = c /\ sym5 v.
-Proof.
-  intros D T.
-  destruct (segwit_decode_encode a net v h D) as [hrp [sep [body [chk [-> [_ [HK [HS [FA _]]]]]]]]].
-  inversion FA as [|? ? Hv _]; subst. split; [|exact Hv].
-  apply orb_true_iff in T as [T|T]; [apply orb_true_iff in T as [T|T]|]; apply beq_eq in T;
-    destruct HK as [-> | [-> | ->]]; cbn [hrp_bc hrp_tb hrp_bcrt firstn app map] in T;
-    try discriminate; injection T; intros; subst; try reflexivity;
-    destruct HS as [HS|HS]; discriminate.
+  intros Ht ER HB.
+  destruct (b58_raw_ok raw _ _ HB) as [ver [ERAW [L20 HV]]].
+  destruct (raw_decode_base58_encode hash256 a raw ER hash_len) as [HBr EN].
+  assert (T2 : (t <? 2) = true) by (apply Z.ltb_lt; lia).
+  exists t, (skipn 1 raw), (if ver =? b58_version t 0 then 0 else 1).
+  split; [split; [exact (bytes_ok_skipn 1 raw HBr)|left; split; [lia|exact L20]]|].
+  split; [destruct (ver =? b58_version t 0); lia|].
+  split; [unfold std_script; now rewrite T2|].
+  unfold std_address. rewrite T2. rewrite ERAW in EN.
+  unfold b58_address, p2pkh_address, p2sh_address, b58_version in *.
+  destruct Ht as [-> | ->]; cbn [Z.eqb] in *; destruct HV as [-> | ->]; exact EN.
 Qed.
 
 Lemma seg_raw_serialize_gen t h : (t = 2 \/ t = 3 \/ t = 4) -> zlen h <= 75 ->
@@ -243,109 +173,165 @@ Proof.
   - exact (ser_two 81 h ltac:(lia) HL).
 Qed.
 
-Definition a2s_concl (a : list Z) (cs : list cmd) : Prop :=
-  (exists t raw, (t = 0 \/ t = 1) /\ raw_decode_base58 hash256 a = Ok raw /\
-      cs = b58_script t (skipn 1 raw) /\
-      forall net, raw = b58_version t net :: skipn 1 raw -> std_address t (skipn 1 raw) net = Ok a) \/
-  (exists t h net, (t = 2 \/ t = 3 \/ t = 4) /\ decode_bech32 a = Ok (net, seg_version t, h) /\
-      cs = seg_script t h /\ (canonical_text a -> std_address t h net = Ok a)).
-
-(* address_to_script_pubkey: whatever it accepts is tied to one of the two decoders, the returned
-   commands have one of the five shapes (the hash length is NOT checked, see the _refuted
-   statements), and canonical segwit texts / Base58Check texts with the right version byte are
-   the address of the returned scriptPubKey *)
-Theorem address_to_script_pubkey_converse a cs :
-  address_to_script_pubkey hash256 a = Ok cs -> a2s_concl a cs.
+(* segwit branches: decode then encode is the identity (Proofs/SegwitConvP.v) *)
+Lemma seg_branch a net h t : seg_template t h ->
+  decode_bech32 a = Ok (net, seg_version t, h) -> addr_of a (seg_script t h).
 Proof.
-  unfold address_to_script_pubkey. intros H.
-  assert (B58 : forall t, (t = 0 \/ t = 1) ->
-            (h <- decode_base58 hash256 a ;; Ok (b58_script t h)) = Ok cs -> a2s_concl a cs).
-  { intros t Ht HH. unfold decode_base58 in HH.
-    destruct (raw_decode_base58 hash256 a) as [raw|] eqn:ER; [|discriminate]. cbn [bind] in HH.
-    injection HH as <-. left. exists t, raw. split; [exact Ht|]. split; [exact ER|].
-    split; [reflexivity|]. intros net ERAW.
-    destruct (raw_decode_base58_encode hash256 a raw ER hash_len) as [_ EN].
-    rewrite ERAW in EN. unfold std_address.
-    assert (T2 : (t <? 2) = true) by (apply Z.ltb_lt; lia). rewrite T2.
-    unfold b58_address, p2pkh_address, p2sh_address, b58_version in *.
-    destruct Ht as [-> | ->]; exact EN. }
-  assert (SEG : forall t c, (t = 2 \/ t = 3 \/ t = 4) -> c = (if t =? 4 then 112 else 113) ->
-            beq (firstn 4 a) [98; 99; 49; c] || beq (firstn 4 a) [116; 98; 49; c] ||
-            beq (firstn 6 a) [98; 99; 114; 116; 49; c] = true ->
-            ('(_, _, h) <- decode_bech32 a ;; Ok (seg_script t h)) = Ok cs -> a2s_concl a cs).
-  { intros t c Ht Hc TX HH.
-    destruct (decode_bech32 a) as [[[net v] h]|] eqn:ED; [|discriminate].
-    cbn [bind] in HH. cbv beta iota in HH. injection HH as <-.
-    destruct (version_char a net v h c ED TX) as [VC Hv].
-    assert (EV : v = seg_version t).
-    { apply b32c_inj; [exact Hv| |].
-      - unfold seg_version, sym5. destruct (t =? 4); lia.
-      - rewrite VC, Hc. unfold seg_version. destruct (t =? 4); reflexivity. }
-    subst v. right. exists t, h, net. split; [exact Ht|]. split; [exact ED|]. split; [reflexivity|].
-    intros CT. unfold std_address.
-    assert (T2 : (t <? 2) = false) by (apply Z.ltb_ge; lia). rewrite T2.
-    destruct (decode_bech32_wf a net _ h ED) as [_ [_ [_ HL]]].
-    unfold segwit_address. rewrite (seg_raw_serialize_gen t h Ht) by (unfold zlen; lia). cbn [bind].
-    exact (segwit_decode_encode_canonical a net (seg_version t) h ED CT). }
-  destruct (beq (firstn 1 a) [49] || beq (firstn 1 a) [109] || beq (firstn 1 a) [110]).
-  { apply (B58 0); [auto|exact H]. }
-  destruct (beq (firstn 1 a) [50] || beq (firstn 1 a) [51]).
-  { apply (B58 1); [auto|exact H]. }
-  destruct (beq (firstn 4 a) txt_bc1q || beq (firstn 4 a) txt_tb1q || beq (firstn 6 a) txt_bcrt1q) eqn:TQ.
-  { destruct (len_in a 42 44).
-    - apply (SEG 2 113); auto.
-    - destruct (len_in a 62 64); [|discriminate]. apply (SEG 3 113); auto. }
-  destruct (beq (firstn 4 a) txt_bc1p || beq (firstn 4 a) txt_tb1p || beq (firstn 6 a) txt_bcrt1p) eqn:TP;
-    [|discriminate].
-  destruct (negb (len_in a 62 64)); [discriminate|]. apply (SEG 4 112); auto.
+  intros ST ED.
+  destruct (decode_bech32_wf a net _ h ED) as [HN _].
+  assert (T2 : 2 <= t) by (destruct ST as [_ [[-> _] | [[-> | ->] _]]]; lia).
+  assert (TB : (t <? 2) = false) by (apply Z.ltb_ge; exact T2).
+  exists t, h, net. split.
+  { destruct ST as [B [[-> L] | [[-> | ->] L]]]; split; auto 6. }
+  split; [lia|]. split; [unfold std_script; now rewrite TB|].
+  unfold std_address. rewrite TB. unfold segwit_address. rewrite (seg_raw_serialize t h ST). cbn [bind].
+  exact (proj1 (segwit_decode_encode a net (seg_version t) h ED)).
 Qed.
 
-(* ---------- witnesses: the parsers accept more than the encoders produce ---------- *)
+(* TxOut.to_address accepts a text exactly when it is the address of one of the five templates,
+   and returns that scriptPubKey *)
+Theorem to_address_iff a cs : to_address_spk hash256 a = Ok cs <-> addr_of a cs.
+Proof.
+  split.
+  2:{ intros [t [h [net [HT [Hnet [-> EA]]]]]].
+      destruct (std_address_roundtrip t h net HT Hnet) as [a' [EA' [_ R]]].
+      rewrite EA in EA'. injection EA' as <-. exact R. }
+  unfold to_address_spk. intros H.
+  destruct (starts_with [98; 99; 49] a || starts_with [116; 98; 49] a ||
+            starts_with [98; 99; 114; 116; 49] a) eqn:SW.
+  - destruct (decode_bech32 a) as [[[net v] h]|] eqn:ED; [|discriminate].
+    cbn [bind] in H. cbv beta iota in H.
+    destruct (decode_bech32_wf a net v h ED) as [_ [_ [HB _]]].
+    destruct (v =? 0) eqn:V0.
+    + apply Z.eqb_eq in V0. subst v.
+      destruct (length h =? 20)%nat eqn:L20.
+      * apply Nat.eqb_eq in L20. injection H as <-.
+        apply (seg_branch a net h 2); [split; auto|exact ED].
+      * destruct (length h =? 32)%nat eqn:L32; [|discriminate].
+        apply Nat.eqb_eq in L32. injection H as <-.
+        apply (seg_branch a net h 3); [split; auto|exact ED].
+    + destruct (v =? 1) eqn:V1; [|discriminate]. apply Z.eqb_eq in V1. subst v.
+      destruct (length h =? 32)%nat eqn:L32; [|discriminate].
+      apply Nat.eqb_eq in L32. injection H as <-.
+      apply (seg_branch a net h 4); [split; auto|exact ED].
+  - destruct a as [|c a']; [discriminate|].
+    destruct ((c =? 51) || (c =? 50)) eqn:C1.
+    + destruct (raw_decode_base58 hash256 (c :: a')) as [raw|] eqn:ER; [|discriminate].
+      cbn [bind] in H. destruct (b58_raw_bad raw 5 196) eqn:BB; [discriminate|].
+      injection H as <-. exact (b58_branch _ raw 1 (or_intror eq_refl) ER BB).
+    + destruct ((c =? 49) || (c =? 109) || (c =? 110)) eqn:C2; [|discriminate].
+      destruct (raw_decode_base58 hash256 (c :: a')) as [raw|] eqn:ER; [|discriminate].
+      cbn [bind] in H. destruct (b58_raw_bad raw 0 111) eqn:BB; [discriminate|].
+      injection H as <-. exact (b58_branch _ raw 0 (or_introl eq_refl) ER BB).
+Qed.
 
-(* BIP173's invalid "non-zero padding" vector: both parsers return the same P2WSH script as for
-   the valid address, so the map address -> script is not injective on accepted texts *)
-Theorem address_parsers_padding_refuted :
-  wA1 <> wA2 /\
+(* the character tested by address_to_script_pubkey ('q' / 'p' after the separator) is the
+   version symbol *)
+Lemma version_char a net v h c : decode_bech32 a = Ok (net, v, h) ->
+  beq (firstn 4 a) [98; 99; 49; c] || beq (firstn 4 a) [116; 98; 49; c] ||
+  beq (firstn 6 a) [98; 99; 114; 116; 49; c] = true ->
+  b32c v = c /\ sym5 v.
+Proof.
+  intros D T.
+  destruct (segwit_decode_encode a net v h D) as [_ [hrp [body [chk [-> [_ [HK [FA _]]]]]]]].
+  inversion FA as [|? ? Hv _]; subst. split; [|exact Hv].
+  apply orb_true_iff in T as [T|T]; [apply orb_true_iff in T as [T|T]|]; apply beq_eq in T;
+    destruct HK as [-> | [-> | ->]]; cbn [hrp_bc hrp_tb hrp_bcrt firstn app map] in T;
+    try discriminate; injection T; intros; subst; reflexivity.
+Qed.
+
+(* address_to_script_pubkey: the same *)
+Theorem address_to_script_pubkey_iff a cs :
+  address_to_script_pubkey hash256 a = Ok cs <-> addr_of a cs.
+Proof.
+  split.
+  2:{ intros [t [h [net [HT [Hnet [-> EA]]]]]].
+      destruct (std_address_roundtrip t h net HT Hnet) as [a' [EA' [R _]]].
+      rewrite EA in EA'. injection EA' as <-. exact R. }
+  unfold address_to_script_pubkey. intros H.
+  assert (SEGV : forall t c net v h, (t = 2 \/ t = 3 \/ t = 4) -> c = (if t =? 4 then 112 else 113) ->
+            beq (firstn 4 a) [98; 99; 49; c] || beq (firstn 4 a) [116; 98; 49; c] ||
+            beq (firstn 6 a) [98; 99; 114; 116; 49; c] = true ->
+            decode_bech32 a = Ok (net, v, h) -> v = seg_version t).
+  { intros t c net v h Ht Hc TX ED.
+    destruct (version_char a net v h c ED TX) as [VC Hv].
+    apply b32c_inj; [exact Hv| |].
+    - unfold seg_version, sym5. destruct (t =? 4); lia.
+    - rewrite VC, Hc. unfold seg_version. destruct (t =? 4); reflexivity. }
+  destruct (beq (firstn 1 a) [49] || beq (firstn 1 a) [109] || beq (firstn 1 a) [110]).
+  { destruct (raw_decode_base58 hash256 a) as [raw|] eqn:ER; [|discriminate].
+    cbn [bind] in H. destruct (b58_raw_bad raw 0 111) eqn:BB; [discriminate|].
+    injection H as <-. exact (b58_branch _ raw 0 (or_introl eq_refl) ER BB). }
+  destruct (beq (firstn 1 a) [50] || beq (firstn 1 a) [51]).
+  { destruct (raw_decode_base58 hash256 a) as [raw|] eqn:ER; [|discriminate].
+    cbn [bind] in H. destruct (b58_raw_bad raw 5 196) eqn:BB; [discriminate|].
+    injection H as <-. exact (b58_branch _ raw 1 (or_intror eq_refl) ER BB). }
+  destruct (beq (firstn 4 a) txt_bc1q || beq (firstn 4 a) txt_tb1q || beq (firstn 6 a) txt_bcrt1q) eqn:TQ.
+  { destruct (decode_bech32 a) as [[[net v] h]|] eqn:ED; [|discriminate].
+    cbn [bind] in H. cbv beta iota in H.
+    destruct (decode_bech32_wf a net v h ED) as [_ [_ [HB _]]].
+    destruct (length h =? 20)%nat eqn:L20.
+    - apply Nat.eqb_eq in L20. injection H as <-.
+      pose proof (SEGV 2 113 net v h ltac:(auto) eq_refl TQ eq_refl) as ->.
+      apply (seg_branch a net h 2); [split; auto|exact ED].
+    - destruct (length h =? 32)%nat eqn:L32; [|discriminate].
+      apply Nat.eqb_eq in L32. injection H as <-.
+      pose proof (SEGV 3 113 net v h ltac:(auto) eq_refl TQ eq_refl) as ->.
+      apply (seg_branch a net h 3); [split; auto|exact ED]. }
+  destruct (beq (firstn 4 a) txt_bc1p || beq (firstn 4 a) txt_tb1p || beq (firstn 6 a) txt_bcrt1p) eqn:TP;
+    [|discriminate].
+  destruct (decode_bech32 a) as [[[net v] h]|] eqn:ED; [|discriminate].
+  cbn [bind] in H. cbv beta iota in H.
+  destruct (decode_bech32_wf a net v h ED) as [_ [_ [HB _]]].
+  destruct (length h =? 32)%nat eqn:L32; [|discriminate]. cbn [negb] in H.
+  apply Nat.eqb_eq in L32. injection H as <-.
+  pose proof (SEGV 4 112 net v h ltac:(auto) eq_refl TP eq_refl) as ->.
+  apply (seg_branch a net h 4); [split; auto|exact ED].
+Qed.
+
+(* the two parsers agree on every text *)
+Corollary parsers_agree a cs :
+  address_to_script_pubkey hash256 a = Ok cs <-> to_address_spk hash256 a = Ok cs.
+Proof. rewrite address_to_script_pubkey_iff, to_address_iff. reflexivity. Qed.
+
+(* address -> script is injective among the accepted texts of one network *)
+Corollary parser_injective_per_network t1 h1 t2 h2 net a1 a2 cs :
+  std_template t1 h1 -> std_template t2 h2 -> 0 <= net <= 3 ->
+  std_address t1 h1 net = Ok a1 -> std_address t2 h2 net = Ok a2 ->
+  to_address_spk hash256 a1 = Ok cs -> to_address_spk hash256 a2 = Ok cs -> a1 = a2.
+Proof.
+  intros T1 T2 Hnet E1 E2 P1 P2.
+  destruct (std_address_roundtrip t1 h1 net T1 Hnet) as [a1' [A1 [_ R1]]].
+  destruct (std_address_roundtrip t2 h2 net T2 Hnet) as [a2' [A2 [_ R2]]].
+  rewrite E1 in A1. rewrite E2 in A2. injection A1 as <-. injection A2 as <-.
+  rewrite P1 in R1. rewrite P2 in R2. injection R1 as R1. injection R2 as R2.
+  destruct (std_script_inj t1 h1 t2 h2 T1 T2 ltac:(congruence)) as [-> ->]. congruence.
+Qed.
+
+(* ---------- the former counterexamples are rejected ---------- *)
+
+(* wA2 (BIP173's invalid non-zero padding vector), wB2 (5 padding bits), wD (version 0 with a
+   21-byte program): rejected by both parsers; the canonical wA1, wB1 are accepted *)
+Theorem former_witnesses_rejected :
   address_to_script_pubkey hash256 wA1 = Ok (p2wsh_script wA_prog) /\
-  address_to_script_pubkey hash256 wA2 = Ok (p2wsh_script wA_prog) /\
   to_address_spk hash256 wA1 = Ok (p2wsh_script wA_prog) /\
-  to_address_spk hash256 wA2 = Ok (p2wsh_script wA_prog) /\
-  p2wsh_address wA_prog 1 = Ok wA1.
-Proof. repeat split; try (vm_compute; reflexivity). discriminate. Qed.
-
-(* a 43-character text with 5 padding bits: TxOut.to_address returns the P2WPKH script of the
-   42-character address (address_to_script_pubkey rejects it by its length test) *)
-Theorem to_address_long_padding_refuted :
-  wB1 <> wB2 /\
+  address_to_script_pubkey hash256 wA2 = Err /\ to_address_spk hash256 wA2 = Err /\
   to_address_spk hash256 wB1 = Ok (p2wpkh_script wB_prog) /\
-  to_address_spk hash256 wB2 = Ok (p2wpkh_script wB_prog) /\
-  address_to_script_pubkey hash256 wB2 = Err /\
-  p2wpkh_address wB_prog 0 = Ok wB1.
-Proof. repeat split; try (vm_compute; reflexivity). discriminate. Qed.
-
-(* address_to_script_pubkey tests the length of the TEXT (42/44, 62/64), not of the program:
-   a 44-character "bc1q" text gives a version-0 scriptPubKey with a 21-byte program, which is
-   none of the standard templates (TxOut.to_address rejects it) *)
-Theorem address_to_script_pubkey_length_refuted :
-  address_to_script_pubkey hash256 wD = Ok (p2wpkh_script wD_prog) /\ length wD_prog = 21%nat /\
-  to_address_spk hash256 wD = Err.
+  address_to_script_pubkey hash256 wB2 = Err /\ to_address_spk hash256 wB2 = Err /\
+  address_to_script_pubkey hash256 wD = Err /\ to_address_spk hash256 wD = Err.
 Proof. repeat split; vm_compute; reflexivity. Qed.
 
-(* Base58: the version byte is never compared.  For every 20-byte hash the Base58Check text of
-   0x70 :: h starts with 'n', both parsers return the P2PKH script of h, and the text is the
-   address of no template on any network *)
-Theorem base58_version_ignored_refuted h :
+(* Base58: the version byte is compared (fix 87f2a60).  For every 20-byte hash the Base58Check
+   text of 0x70 :: h starts with 'n' (so it reaches the P2PKH branch) and both parsers reject it *)
+Theorem base58_foreign_version_rejected h :
   bytes_ok h -> length h = 20%nat ->
   exists a, encode_base58_checksum hash256 (112 :: h) = Ok a /\
-            address_to_script_pubkey hash256 a = Ok (p2pkh_script h) /\
-            to_address_spk hash256 a = Ok (p2pkh_script h) /\
-            forall t h' net, (t = 0 \/ t = 1) -> bytes_ok h' -> b58_address hash256 t h' net <> Ok a.
+            address_to_script_pubkey hash256 a = Err /\ to_address_spk hash256 a = Err.
 Proof.
   intros HB HL.
   assert (HBr : bytes_ok (112 :: h)) by (constructor; [unfold byte_ok; lia|exact HB]).
   destruct (base58check_roundtrip hash256 hash_len hash_ok _ HBr) as [a [EA [_ DEC]]].
   exists a. split; [exact EA|].
-  assert (DB : decode_base58 hash256 a = Ok h) by (unfold decode_base58; rewrite DEC; reflexivity).
   assert (K33 : 58 ^ Z.of_nat 33 = 58 ^ 33) by reflexivity.
   assert (K34 : 58 ^ Z.of_nat 34 = 58 ^ 34) by reflexivity.
   destruct (b58_first_char hash256 hash_len hash_ok 112 h a ltac:(lia) HB HL EA)
@@ -353,20 +339,13 @@ Proof.
   destruct (HK 33%nat) as [B1 B2]; [rewrite K33; unfold P24; lia|rewrite K34; unfold P24; lia|].
   rewrite K33 in B1, B2. unfold P24 in B1, B2.
   assert (dg = 45) as -> by lia. change (b58_char 45) with 110 in *.
-  split; [|split].
+  split.
   - unfold address_to_script_pubkey.
-    cbn -[decode_base58 decode_bech32 length Nat.eqb]. rewrite DB. reflexivity.
+    cbn -[raw_decode_base58 decode_bech32 length Nat.eqb b58_raw_bad]. rewrite DEC.
+    cbn [bind]. unfold b58_raw_bad. cbn [length nth]. rewrite HL. reflexivity.
   - unfold to_address_spk.
-    cbn -[decode_base58 decode_bech32 length Nat.eqb]. rewrite DB.
-    cbn -[decode_base58 decode_bech32 length Nat.eqb]. rewrite HL. reflexivity.
-  - intros t h' net Ht HB' E.
-    assert (HB2 : bytes_ok (b58_version t net :: h')).
-    { constructor; [|exact HB']. unfold b58_version, byte_ok. destruct (t =? 0), (net =? 0); lia. }
-    assert (E' : encode_base58_checksum hash256 (b58_version t net :: h') = Ok (110 :: map b58_char r)).
-    { unfold b58_address, p2pkh_address, p2sh_address, b58_version in *.
-      destruct Ht as [-> | ->]; exact E. }
-    pose proof (encode_base58_checksum_inj hash256 hash_len hash_ok _ _ _ HBr HB2 EA E') as EQ.
-    injection EQ as EV _. unfold b58_version in EV. destruct (t =? 0), (net =? 0); lia.
+    cbn -[raw_decode_base58 decode_bech32 length Nat.eqb b58_raw_bad]. rewrite DEC.
+    cbn [bind]. unfold b58_raw_bad. cbn [length nth]. rewrite HL. reflexivity.
 Qed.
 
 (* ---------- the other entry points ---------- *)
